@@ -182,6 +182,8 @@ Inductive op2 : Type :=
 | OpSetCertsDeprecated (l : list (cert * bool))                        (* set_certs (deprecated); bool = script credential *)
 | OpSetWithdrawalsDeprecated (l : list (N * N * bool))                 (* set_withdrawals (deprecated) *)
 | OpRemoveMint                                                         (* remove_mint_builder *)
+| OpSetMintAsset (p : bytes) (es : list (bytes * Z))                   (* set_mint_asset (deprecated): MintAssets built by insert, then
+                                                                          MintBuilder::set_asset per entry in name order, in place *)
 | OpProposalsKeyed (l : list (N * N)).                                 (* VotingProposalBuilder::add of (identity, deposit) items, then
                                                                           set_voting_proposal_builder: the builder is a map keyed by the
                                                                           proposal, so the same proposal added twice is there once *)
@@ -207,6 +209,16 @@ Fixpoint dedup_proposals (l : list (N * N)) (seen : list (N * N)) : list N :=
   | x :: r =>
       if existsb (fun y : N * N => (fst y =? fst x) && (snd y =? snd x)) seen then dedup_proposals r seen
       else snd x :: dedup_proposals r (x :: seen)
+  end.
+
+(* MintAssets (BTreeMap<AssetName, Int>) filled by successive insert *)
+Definition mint_assets_map (es : list (bytes * Z)) : list (bytes * Z) :=
+  fold_left (fun m (e : bytes * Z) => am_insert name_cmp (fst e) (snd e) m) es [].
+(* set_asset entry by entry, stopping at the first error; the map reached so far stays (the builder's mint is mutated in place) *)
+Fixpoint mint_set_all (p : bytes) (l : list (bytes * Z)) (m : mint_map) : bool * mint_map :=
+  match l with
+  | [] => (true, m)
+  | (n, z) :: r => match mint_update true p n z m with Ok m' => mint_set_all p r m' | _ => (false, m) end
   end.
 
 Definition in_range (amt : Z) : bool := negb ((amt <? int_min) || (int_max <? amt))%Z.
@@ -236,6 +248,20 @@ Definition run_op2 (utxos : list (N * value)) (x : op2) (s : state) (c : colstat
       with (res, s') => (res, s', c, None) end
   | OpSetCertsDeprecated l =>
       match pure_op s o (let* cs := set_certs l in Ok (set_s_certs (Some cs) s)) with (res, s') => (res, s', c, None) end
+  | OpSetMintAsset p es =>
+      (* every quantity is an Int, and MintAssets::insert refuses a zero quantity: both before the builder is touched *)
+      if forallb (fun e : bytes * Z => in_range (snd e) && negb (snd e =? 0)%Z) es then
+        let l := mint_assets_map es in
+        match s_mint s with
+        | Some m =>
+            let r := mint_set_all p l m in
+            let s1 := set_s_mint (Some (snd r)) s in
+            match pure_op s1 o (if fst r then Ok s1 else Err) with (res, s') => (res, s', c, None) end
+        | None =>
+            let r := mint_set_all p l [] in
+            match pure_op s o (if fst r then Ok (set_s_mint (Some (snd r)) s) else Err) with (res, s') => (res, s', c, None) end
+        end
+      else match pure_op s o Err with (res, s') => (res, s', c, None) end
   | OpRemoveMint =>
       match pure_op s o (Ok (set_s_mint None s)) with (res, s') => (res, s', c, None) end
   | OpProposalsKeyed l =>
